@@ -101,6 +101,7 @@ def base_flags(root, dist=False, ndebug=True):
           "-I" + os.path.join(VERIF, "drivers"),
           "-isystem", "/usr/lib/llvm-14/include",
           "-isystem", "/root/miniconda/include",
+          "-DGALOIS_USE_NUMA", "-DGALOIS_USE_SCHED_SETAFFINITY",
           "-Wno-everything", "-ferror-limit=0",
           "-resource-dir", resource_dir()]
     fl.append("-DNDEBUG" if ndebug else "-UNDEBUG")
